@@ -1849,9 +1849,11 @@ def c20_decode_for(ver, cka, rate, rmax):
 def c20_configs(tier):
     cs = []
     for ver in (3, 5):
-        for cka, rate, rmax, maxt in ((2, 0, 2, 7), (2, 4, 2, 6), (4, 4, 2, 6)):
+        # (rmax 6: the budget for extensions is larger than what one burst can earn - a frame that stalls after a burst
+        #  above the rate is still timed out one period after the extension the burst earned, not when the budget ends)
+        for cka, rate, rmax, maxt in ((2, 0, 2, 7), (2, 4, 2, 6), (4, 4, 2, 6), (2, 4, 6, 6)):
             ka = cka + cka // 2
-            cs.append((f"v{ver}_ka{cka}_r{rate}",
+            cs.append((f"v{ver}_ka{cka}_r{rate}" + (f"_m{rmax}" if rmax != 2 else ""),
                        TIMERS_CFG.format(ka=ka, rate=rate, rmax=rmax, maxt=maxt, fixed="TRUE", dead="INVARIANT Dead\nINVARIANT NoNegative\nINVARIANT Slow"),
                        "Timers", c20_decode_for(ver, cka, rate, rmax), [None] if rate else [None, "busy"]))
     return cs
